@@ -46,6 +46,12 @@ PROGRAMS = {
     # one rec-carrying function applied twice inside one enclosing application
     "rec-function-applied-twice-inside-one-application": ({"main.oal": "let list x = rec r { 'item x, 'rest [r] };\nlet pair y = { 'ints (list y), 'strs (list str) };\nres /pair on get -> <pair int>;\n"},
                                                           OK, {"components": 2, "distinct_by": [("item", ["integer", "string"])]}),
+    # a cuttable cycle that passes through a plain alias, entered at the alias
+    "cycle-through-an-alias-entered-at-the-alias": ({"main.oal": "let link = node;\nlet node = { 'value str, 'next? link };\nres /list on get -> <link>;\n"}, OK, {"min_components": 1}),
+    "cycle-through-two-aliases": ({"main.oal": "let a = b;\nlet b = c;\nlet c = { 'back? a, 'v num };\nres /a on get -> <a>;\nres /b on get -> <b>;\n"}, OK, {"min_components": 1}),
+    "uri-cycle-inside-a-schema-cycle": ({"main.oal": "let u = concat /u v;\nlet v = concat /v u;\nlet a = { 'self? a, 'link /x?{ 'q a } };\nres u on get -> <a>;\n"}, REJECT, {}),
+    "recursive-schema-before-a-self-referential-uri": ({"main.oal": "let a = { 'x? a };\nlet u = concat /u u;\nres u on get -> <a>;\n"}, REJECT, {}),
+    "self-referential-uri-before-a-recursive-schema": ({"main.oal": "let u = concat /u u;\nlet a = { 'x? a };\nres u on get -> <a>;\n"}, REJECT, {}),
     "function-cycle": ({"main.oal": "let f x = g x;\nlet g x = f x;\nres / on get -> <f num>;\n"}, REJECT, {}),
     "content-cycle": ({"main.oal": "let c = <c>;\nres / on get -> c;\n"}, REJECT, {}),
     "alias-cycle": ({"main.oal": "let a = b;\nlet b = a;\nres / on get -> <a>;\n"}, REJECT, {}),
